@@ -15,6 +15,11 @@ def main(argv):
     d = lib.mktemp("verif-sany-")
     for f in glob.glob(os.path.join(lib.SPECS, "*.tla")):
         shutil.copy(f, d)
+    # CLHT_Freeze and Trace_CLHT extend modules generated per run (geometry / recorded scenario): instances for the parse
+    import clht
+    clht.write_model(d, sorted(clht.families())[0], "map")
+    open(os.path.join(d, "MC_TraceCLHT.tla"), "w").write(
+        "---- MODULE MC_TraceCLHT ----\nEXTENDS CLHT\nBallastKeys == {}\nSilentLabels == {}\n====\n")
     bad = 0
     for f in sorted(glob.glob(os.path.join(d, "*.tla"))):
         p = subprocess.run(["tla-sany", os.path.basename(f)], cwd=d, stdout=subprocess.PIPE, stderr=subprocess.STDOUT, text=True, timeout=300)
